@@ -139,6 +139,8 @@ class NodePeer:
             send((rep + '\n').encode(), delay=2.5)
         elif answer == 'at-timeout':
             send((rep + '\n').encode(), delay=TIMEOUT)
+        elif answer.startswith('late:'):        # the reply arrives <d> s after the caller's time-out expired
+            send((rep + '\n').encode(), delay=TIMEOUT + float(answer.split(':')[1]))
         elif answer == 'split-slow':
             data = (rep + '\n').encode()
             cut = max(1, len(data) // 2)
@@ -231,8 +233,9 @@ def execute(case, prefix):
                         # the same caller asks again after its time-out
                         world.answers = ANSWERS[:1]
                         t1 = sched.now
+                        again = (case.get('retry_with') or [None] * (i + 1))[i] or req      # (the same thread goes on with another request)
                         try:
-                            rep = client.request(*req)
+                            rep = client.request(*again)
                             out['retry'][i] = ('reply', list(rep), t1, sched.now)
                         except Exception as e2:          # noqa
                             out['retry'][i] = ('exc', type(e2).__name__, str(e2)[:80], t1, sched.now)
@@ -364,9 +367,20 @@ def judge(case, sched, x, world, out):
             elif exc in ('HardwareError', 'ProtocolError') and not any(a == 'error' for a in answers) and req[0] != 'frob':
                 viol.append(('error-reply-for-foreign-request', f'caller {i} {req} got {exc} {res[2]!r} but its answers were {answers}'))
     for i, res in out.get('retry', {}).items():
+        again = (case.get('retry_with') or [None] * (i + 1))[i] or callers[i]
         if res[0] == 'exc' and not world.drops:
-            viol.append(('retry-after-timeout-failed', f'caller {i} repeated {callers[i]} after its time-out and got {res[1]} {res[2]!r}; '
-                                                        f'peer got {[(e[1], e[2], e[3], e[5]) for e in world.events if e[0] == "peer-got"]}'))
+            viol.append(('retry-after-timeout-failed' if again == callers[i] else 'next-request-of-the-same-thread-failed-after-a-time-out',
+                         f'caller {i} asked {again} after the time-out of {callers[i]} and got {res[1]} {res[2]!r}; '
+                         f'peer got {[(e[1], e[2], e[3], e[5]) for e in world.events if e[0] == "peer-got"]}'))
+        elif res[0] == 'reply' and again != callers[i]:
+            # another key: the reply must be the one the peer produced for this very request
+            mine2 = peer_got.get((again[0], again[1], json.dumps(again[2])), [])
+            action, ident, data = res[1]
+            if not any(world.requests[n]['reply'] and world.requests[n]['reply'].split(' ', 2)[0] == action and ident == again[1] and
+                       json.dumps(json.loads(world.requests[n]['reply'].split(' ', 2)[2])) == json.dumps(data) for n in mine2):
+                viol.append(('foreign-reply:next-request-of-the-same-thread-after-a-time-out',
+                             f'caller {i} asked {again} after the time-out of {callers[i]} and got {res[1]} '
+                             f'(peer replies: {[world.requests[n]["reply"] for n in sorted(world.requests)]})'))
     # released promptly after a link loss (peer drop): every caller finished within 2 s + its remaining work
     for tdrop in world.drops:
         for i, req in enumerate(callers):
@@ -424,6 +438,13 @@ def cases(tier):
                     'bound': 2, 'dev': 1, 'total': 2 if quick else 3, 'free': 2, 'nanswers': nans})
     res.append({'name': 'retry-after-timeout', 'callers': [CALLERS['same-read'][0]], 'shutdown': 'none', 'level': 'sync', 'retry': True,
                 'bound': 1 if quick else 2, 'dev': 1, 'total': 2 if quick else 3, 'free': 2, 'nanswers': nans})
+    # a thread whose request timed out goes on with a request for another key while the late reply to the first one comes in
+    # (at the time-out, shortly after it - before the rx thread has cleaned up - and after the clean-up); the second request is
+    # answered after 2.5 s, so the thread is waiting when the late reply arrives
+    for late in ('0', '0.3', '0.9', '1.7'):
+        res.append({'name': f'next-after-timeout/late-{late}', 'callers': [CALLERS['distinct-read'][0]], 'retry': True,
+                    'retry_with': [CALLERS['distinct-read'][1]], 'scripted': {1: f'late:{late}', 2: 'delayed'}, 'shutdown': 'none', 'level': 'sync',
+                    'bound': 1 if quick else 2, 'dev': 0, 'total': None, 'free': 2, 'nanswers': nans})
     for name in (['same-read'] if quick else ['same-read', 'same-change', 'unknown+read']):
         res.append({'name': f'{name}/line', 'callers': CALLERS[name], 'shutdown': 'none', 'level': 'line',
                     'bound': 1 if quick else 2, 'dev': 1 if quick else 0, 'total': 2, 'free': 2, 'nanswers': nans})
